@@ -147,7 +147,9 @@ class Directive(Base):
     ]
 
     @show_result
-    def __new__(cls, string: Union[str, FortranReaderBase], parent_cls=None):
+    def __new__(
+        cls, string: Union[str, FortranReaderBase], parent_cls=None, _deepcopy=False
+    ):
         """
         Create a new Directive instance.
 
@@ -158,6 +160,11 @@ class Directive(Base):
 
         """
         from fparser.common import readfortran
+
+        if _deepcopy:
+            # Part of a deep-copy or unpickling operation (see
+            # Base.__getnewargs__): just create the instance.
+            return object.__new__(cls)
 
         if isinstance(string, readfortran.Comment):
             # Inline comments cannot be directives.
@@ -208,6 +215,9 @@ class Directive(Base):
         """
         self.items = [comment.comment]
         self.item = comment
+        # The original argument used to construct this instance (needed
+        # by Base.__getnewargs__ when the tree is copied or pickled).
+        self.string = comment
 
     def tostr(self) -> str:
         """
@@ -224,7 +234,7 @@ class Comment(Base):
     subclass_names = []
 
     @show_result
-    def __new__(cls, string, parent_cls=None):
+    def __new__(cls, string, parent_cls=None, _deepcopy=False):
         """
         Create a new Comment instance.
 
@@ -236,6 +246,11 @@ class Comment(Base):
 
         """
         from fparser.common import readfortran
+
+        if _deepcopy:
+            # Part of a deep-copy or unpickling operation (see
+            # Base.__getnewargs__): just create the instance.
+            return object.__new__(cls)
 
         if isinstance(string, readfortran.Comment):
             # We were after a comment and we got a comment. Construct
@@ -269,6 +284,9 @@ class Comment(Base):
         """
         self.items = [comment.comment]
         self.item = comment
+        # The original argument used to construct this instance (needed
+        # by Base.__getnewargs__ when the tree is copied or pickled).
+        self.string = comment
 
     def tostr(self):
         """
